@@ -47,7 +47,9 @@ fcppt::options::many<Parser>::parse(
   fcppt::options::state state{std::move(_state)};
 
   auto const next([this, &state, &_context] {
-    return fcppt::options::deref(this->parser_).parse(std::move(state), _context);
+    // Parse a copy, so that an attempt that fails after it has already consumed
+    // some arguments does not take them away.
+    return fcppt::options::deref(this->parser_).parse(fcppt::options::state{state}, _context);
   });
 
   auto const loop(
@@ -69,10 +71,9 @@ fcppt::options::many<Parser>::parse(
 
   return fcppt::variant::match(
       fcppt::either::loop(next, loop),
-      [&result](fcppt::options::missing_error &&_missing_error) {
+      [&result, &state](fcppt::options::missing_error &&) {
         return fcppt::options::parse_result<result_type>{
-            fcppt::options::state_with_value<result_type>(
-                std::move(_missing_error.state()), std::move(result))};
+            fcppt::options::state_with_value<result_type>(std::move(state), std::move(result))};
       },
       [](fcppt::options::other_error &&_other_error) {
         return fcppt::either::make_failure<fcppt::options::state_with_value<result_type>>(
